@@ -182,7 +182,7 @@ MustAllowStep(eff, prev, next) == eff = "solve" \/ next >= prev
 (*                              in the constructor, a dense one in every    *)
 (*                              update, after self._t was already moved     *)
 (*                   "ok"     - now: isinstance test                        *)
-(*  modes.progbar0 : "crash"  - now (KF-C18-3): with progbar=True the       *)
+(*  modes.progbar0 : "crash"  - before fix 3d8811e9: with progbar=True the  *)
 (*                              integrator's                                *)
 (*                              solout divides by the requested time span;  *)
 (*                              update_to(t) with t = evo.t raises, and the  *)
@@ -256,6 +256,6 @@ ImplUpdate(st, t, via, modes) ==
 ImplTimeOK(s) == s.tauL = ImplT(s) - s.t0 /\ (s.kind = "dop" => s.tauR = ImplT(s) - s.t0)
 
 \* the code as it is now (after the fix: commits for expm + density operator and for the 2x2 unpack test;
-\* the progress-bar defect is still there; the repeated-time drift is rare, see above)
-PinnedModes   == [expm_dop |-> "both", solve2 |-> "ok", progbar0 |-> "crash", int_repeat |-> "ok"]
+\* and for the empty progress-bar window; the repeated-time drift is rare, see above)
+PinnedModes   == [expm_dop |-> "both", solve2 |-> "ok", progbar0 |-> "ok", int_repeat |-> "ok"]
 =============================================================================
